@@ -48,7 +48,7 @@ RULE = {
 FAULT_KINDS = {
     "C04": ["rng_min", "rng_max", "cost_beyond_hard_limit", "legacy_below_min", "legacy_above_max", "policy_update"],
     "C08": ["subst", "delete", "dup", "insert", "truncate", "empty", "other_record", "other_scheme", "swap_fields", "nul", "nonascii",
-            "garbage", "as_bytes"],
+            "garbage", "numeric_alias", "as_bytes"],
     "C10": ["using_raises", "invalid_item", "policy_file_missing", "policy_file_unreadable", "policy_file_read_error",
             "policy_file_truncated", "policy_file_wrong_section", "policy_file_not_utf8", "restart_via_dict", "restart_via_ini",
             "restart_via_file"],
@@ -97,7 +97,7 @@ C08_PALETTE = ["des_crypt", "bsdi_crypt", "md5_crypt", "apr_md5_crypt", "sha1_cr
                "sun_md5_crypt", "fshp", "ldap_salted_md5", "ldap_salted_sha256", "ldap_salted_sha512", "ldap_md5", "django_salted_md5",
                "django_pbkdf2_sha1", "atlassian_pbkdf2_sha1", "grub_pbkdf2_sha512", "mssql2000", "mssql2005", "oracle11", "ldap_md5_crypt",
                "ldap_sha256_crypt", "ldap_sha512_crypt", "ldap_sha1_crypt", "ldap_des_crypt", "ldap_bsdi_crypt", "ldap_bcrypt", "django_bcrypt",
-               "hex_sha1", "hex_sha256", "hex_sha512"]
+               "hex_sha1", "hex_sha256", "hex_sha512", "cisco_type7", "scram"]
 HEXLEN = {"hex_md5": 32, "nthash": 32, "hex_sha1": 40, "hex_sha256": 64, "hex_sha512": 128}
 PWS = ["pw", "secret", "Pw", "pässword", "p w", "x", "correct horse"]
 CATS = ["admin", "staff"]
@@ -237,8 +237,15 @@ def facts_for(schemes):
 def build_context(cfg):
     from passlib.context import CryptContext
 
+    cfg = dict(cfg)
+    objs = cfg.pop("scheme_objects", None)
     with warnings.catch_warnings():
         warnings.simplefilter("ignore")
+        if objs:
+            # schemes handed over as pre-configured hasher OBJECTS (H.using(...)) instead of names plus '<scheme>__option' keys
+            import passlib.hash
+
+            cfg["schemes"] = [getattr(passlib.hash, s).using(relaxed=True, **objs[s]) if isinstance(s, str) and s in objs else s for s in cfg["schemes"]]
         return CryptContext(**cfg)
 
 
@@ -319,6 +326,21 @@ def _delta(rng, cfg, truncate=False):
 
 def _gen_policy_program(rng, tier):
     cfg = gen_policy(rng)
+    if rng.random() < 0.2:
+        # one scheme is handed to the context as a pre-configured hasher object: its default-level cost options travel inside the
+        # object instead of as configuration keys (category-level keys and later updates still apply on top of it)
+        cand = [s for s in cfg["schemes"] if s in COSTED and s not in WRAPPERS and any(k.startswith(s + "__") and k.split("__")[1] in ("min_rounds", "max_rounds", "default_rounds", "rounds") for k in cfg)]
+        if cand:
+            s = rng.choice(cand)
+            obj = {}
+            for k in list(cfg):
+                parts = k.split("__")
+                if len(parts) == 2 and parts[0] == s and parts[1] in ("min_rounds", "max_rounds", "default_rounds", "rounds"):
+                    obj[parts[1]] = cfg.pop(k)
+            cfg["scheme_objects"] = {s: obj}
+    if "bcrypt_sha256" in cfg["schemes"] and rng.random() < 0.5:
+        # the wrapper's format version is a setting too: a context configured for the older one must not flag its own hashes
+        cfg[rng.choice(["bcrypt_sha256__version", "bcrypt_sha256__version", "admin__bcrypt_sha256__version"])] = rng.choice([1, 1, 2])
     users = [f"u{i}" for i in range(rng.randint(1, 6))]
     ops = []
     n = rng.randint(6, 30 if tier == "quick" else 40)
@@ -350,9 +372,16 @@ def _gen_policy_program(rng, tier):
 
 def _gen_storage_program(rng, tier):
     n = rng.choice([1, 2, 2, 3, 4])
-    schemes = rng.sample(C08_PALETTE, n)
+    # (the first 21 formats keep 55% of the weight; widening the palette must not thin out the runs that reach rare damage)
+    schemes = []
+    for _ in range(n):
+        s_ = rng.choice(C08_PALETTE[:21] if rng.random() < 0.55 else C08_PALETTE[21:])
+        if s_ not in schemes:
+            schemes.append(s_)
     if "hex_md5" in schemes and "nthash" in schemes:
         schemes.remove("nthash")
+    if "cisco_type7" in schemes:
+        schemes = ["cisco_type7"]  # (two digits + hex pairs: it would claim many other formats' strings; judged on its own)
     tail = []
     if rng.random() < 0.3:
         tail.append("unix_disabled")
@@ -422,7 +451,14 @@ def _gen_lifecycle_program(rng, tier):
         # a scheme that claims marker-prefixed text too, listed LAST (listed before another scheme it would own that scheme's
         # records by the attribution rule, before the disabled-account scheme every disabled record: outside the domain)
         cfg["schemes"].append(rng.choice(["plaintext", "plaintext", "ldap_plaintext"]))
-    real = [s for s in cfg["schemes"] if s != disabled]
+    if rng.random() < 0.15:
+        # both disabled-account handlers in one context: the FIRST listed one is the context's (it produces and, for the strings
+        # both claim, recognises the disabled records); the other one follows somewhere behind it
+        other = "django_disabled" if disabled == "unix_disabled" else "unix_disabled"
+        pos = cfg["schemes"].index(disabled)
+        end = len(cfg["schemes"]) - (1 if cfg["schemes"][-1] in ("plaintext", "ldap_plaintext") else 0)
+        cfg["schemes"].insert(rng.randint(pos + 1, max(pos + 1, end)), other)
+    real = [s for s in cfg["schemes"] if s not in ("unix_disabled", "django_disabled")]
     users = []
     for i in range(rng.randint(1, 5)):
         shape = rng.choice(["hash", "hash", "hash", "none", "empty", "bare_bang", "bare_star", "bang_hash", "star_hash", "django_style"])
@@ -432,6 +468,8 @@ def _gen_lifecycle_program(rng, tier):
         k = rng.choices(["disable", "disable_nohash", "enable", "login", "login_empty", "login_self", "login_wrong", "is_enabled",
                          "verify_none", "policy_update", "restart", "needs_update"], [6, 2, 5, 4, 2, 2, 2, 3, 2, 1, 1, 1])[0]
         op = {"op": k, "user": rng.randrange(len(users))}
+        if k in ("disable", "enable") and rng.random() < 0.25:
+            op["as_bytes"] = True  # the stored record is handed over as bytes (as read from a file or a database driver)
         if k == "policy_update":
             op["delta"] = _delta(rng, {kk: v for kk, v in cfg.items()} | {"schemes": real})
             if not op["delta"]:
@@ -817,6 +855,21 @@ def damage(h, kind, pos, byte, other):
         return h[:i] + "é" + h[i + 1:]
     if kind == "garbage":
         return (byte * 7 + "$x$" + h[::-1])[: max(3, pos % 90)]
+    if kind == "numeric_alias":
+        # a decimal field is rewritten to a value that a sloppy reader may fold back onto the original: +1, or the original plus a
+        # table / word size (53, 64, 256, 2^16, 2^32) -- modular indexing and integer wrap-around are the classic aliasing mistakes
+        import re
+
+        runs = [(m.start(), m.end()) for m in re.finditer(r"[0-9]+", h)]
+        if len(h) >= 2 and h[:2].isdigit():
+            runs.append((0, 2))  # a fixed-width two-digit head field (e.g. Cisco type 7's salt)
+        if not runs:
+            return h
+        a, b = runs[pos % len(runs)]
+        v = int(h[a:b])
+        m_ = [1, 53, 64, 256, 65536, 2 ** 32][(ord(byte[0]) if byte else 0) % 6]
+        new = str(v + m_).rjust(b - a, "0")
+        return h[:a] + new + h[b:]
     return h
 
 
@@ -918,6 +971,7 @@ class _StorageRun:
                 (re.compile(r"^\{FSHP[^|]*\|[^|]*\|\s*\+?([0-9_]+)"), "int", 30000),
                 (re.compile(r"^pbkdf2_sha1\$\s*\+?([0-9_]+)"), "int", 30000),
                 (re.compile(r"^grub\.pbkdf2\.sha512\.\s*\+?([0-9_]+)"), "int", 30000),
+                (re.compile(r"^\$scram\$\s*\+?([0-9_]+)"), "int", 10000),
             ]
         from simkit.refmodels.extract import H64
 
@@ -993,12 +1047,35 @@ class _StorageRun:
                               lambda: f"{d!r} (damaged {S} record of {pw!r}) verified through {via}", **attrs)
                     continue
                 ex = self.extract(S, d)
+                if S == "scram" and ex is not None and ex != rec["ex"]:
+                    # a scram record lists several digests of the same password and the default verify() uses the first usable one
+                    # (documented): damage that only knocks out ANOTHER pair leaves an intact, genuine digest doing the verifying
+                    from simkit.refmodels.extract import scram_full
+
+                    full0 = scram_full(rec["hash"])
+                    if full0 is not None and ex[1] == rec["ex"][1] and ex[2] == rec["ex"][2] and ex[3] in full0[2]:
+                        ctx.probe("scram_other_intact_digest_used")
+                        continue
                 ctx.check(ex is not None and ex == rec["ex"], "C08", "altered-hash-verifies",
                           lambda: f"{name}: original {rec['hash']!r} damaged ({kind}) to {d!r} still verifies {pw!r}; "
                                   f"decoded original {rec['ex']} damaged {ex}", **attrs)
                 ctx.probe("respelling_accepted")
             elif not changed and name == "handler.verify":
                 ctx.check(verified, "C08", "intact-record-rejected", f"{d!r} / {pw!r} -> {v!r}", **attrs)
+        if S == "scram":
+            # the format's thorough entry point: verify(full=True) compares EVERY digest the record lists
+            from simkit.refmodels.extract import scram_full
+
+            r = _call(H.verify, pw, arg, full=True)
+            if r[0] == "exc":
+                ctx.check(isinstance(r[2], (ValueError, TypeError)), "C08", "internal-error-escapes",
+                          lambda: f"scram.verify(full=True) on {d!r} raised {r[1]}: {r[2]}", exc=r[1], func=repo_func(r[2]))
+            elif r[1] is True and changed:
+                fd, f0 = scram_full(d), scram_full(rec["hash"])
+                # (a record that lists a subset of the original's digests, same rounds and salt, IS a genuine scram hash of the password)
+                ctx.check(fd is not None and fd[:2] == f0[:2] and fd[2] and set(fd[2]) <= set(f0[2]), "C08", "altered-hash-verifies",
+                          lambda: f"scram.verify(full=True): original {rec['hash']!r} damaged ({kind}) to {d!r} still verifies {pw!r}", **attrs)
+            ctx.probe("scram_full_verify")
         ctx.log("judge", d, sorted((k, str(v)) for k, v in outcomes.items()))
         pc = "head" if d[:4] != rec["hash"][:4] else "tail" if d[-4:] != rec["hash"][-4:] else "middle"
         self.seen.add((S, kind, pc, str(outcomes["handler.verify"])))
